@@ -45,8 +45,9 @@ def spec_term(case, ob) -> str:
     if t == "reject":
         return "SReject"
     if t == "data":
+        tail = C.clist(sp.get("tail", []), lambda t: C.copt(t, C.z))
         return (f"(SData {C.cbool(sp['high'])} {C.z(sp['org'])} {C.z(sp['off'])} "
-                f"{C.clist(sp['items'], _item)} {C.cstr(sp['end'])})")
+                f"{C.clist(sp['items'], _item)} {C.cstr(sp['end'])} {tail})")
     if t == "branch":
         return (f"(SBranch {C.cbool(sp['high'])} {C.z(sp['p'])} {C.z(sp['t_addr'])} {C.z(sp['op'])} "
                 f"{C.nat(sp['skip'])} {C.cbool(sp['reject'])})")
